@@ -193,16 +193,23 @@ CLAIMED = {
                   "z3 integers",
     ),
     'C30': dict(
-        category='proof', engine='pyvc',
+        category='proof', engine='cvc+pyvc',
         text="Exception-escape obligations on the real constant-expression evaluator: for every AST node class and "
              "operator and all operand values, no built-in operation of Parser._parse_constant/_c_div can raise "
              "anything but CDefError/FFIError (division by zero, negative shift counts, missing dict keys, string "
-             "indexing are each an obligation). The '#define' literal path is covered by a labelled bounded "
+             "indexing are each an obligation). Parser._parse_decl's chain that classifies a variable declaration (literal "
+             "initializers) is a segment contract run for every node class of the installed pycparser as initializer, "
+             "and every operator x node class for a UnaryOp: no AttributeError or other foreign exception leaves. "
+             "Compiled FFIs: _ffi_type (ffi_obj.c), the entry of typeof(string) & co., returns a ctype or NULL with an "
+             "exception for any argument and hands the type-string parser a C string (call-site obligation; it did not: "
+             "defect found, replayed, repaired in b3f2eba). The '#define' literal path is covered by a labelled bounded "
              "stand-in on the real code (all values up to length 4/5 over a 14-letter alphabet).",
         design_ref='DESIGN.md section 4 C30',
-        note="Trusted: z3; vf/pyexec.py. Not decided: pycparser, the regex preprocessing, the rest of cparser.py, "
-             "and the C type-string parser parse_c_type.c (never-reads-outside-the-string). The bounded stand-in is "
-             "reported under bounded_stand_ins and never counted as proved.",
+        note="Trusted: z3; vf/pyexec.py, vf/cexec.py. Not decided: pycparser, the regex preprocessing, the rest of "
+             "cparser.py (known, reproduced and NOT reported by this check: in-line typeof('') / typeof('...') raise "
+             "AttributeError, cdef('struct ...;') raises AssertionError -- see DESIGN.md section 0), and the C "
+             "type-string parser parse_c_type.c itself (assumed contract here). The bounded stand-in is reported under "
+             "bounded_stand_ins and never counted as proved.",
         technique="contract-based deductive verification (exception-escape obligations, path-wise VCs, z3) plus a "
                   "bounded exhaustive stand-in for literal processing",
     ),
